@@ -24,11 +24,17 @@ RULE = ("tables and query points are drawn from VERIF_SEED (families: smooth, ji
         "prefactors of either sign); a case is non-trivial when model and implementation both answer ok or both stop; "
         "it is counted once per distinct (op, family, size class, query class: knot / knot neighbour / interior / "
         "extrapolation zone / derivative order)")
-CORR_ONLY = ["rounding-level overshoot (bounded by K_OVER=256 eps*max|y|; worst observed ~16 eps*max|y|, see input_distribution.worst_*)",
+CORR_ONLY = ["interior rounding-level overshoot / backward steps (accepted up to K_OVER=32 eps*max(|y_j|,|y_j+1|), see ASSUMPTIONS; measured per run in input_distribution.worst_overshoot / worst_nonmonotone)",
              "the 1% extrapolation zone: values and derivatives compared against the model, no monotonicity claim there"]
 ASSUMPTIONS = ["unit factors x_dim/f_dim are compared on tables whose products with the factor are exact in double "
                "(float32 tables and factors): the model multiplies exactly, the C++ rounds each product",
-               "query points are kept a relative margin >= 2^-30 away from the 1% extrapolation boundary"]
+               "query points are kept a relative margin >= 2^-50 (8.9e-16) away from the 1% extrapolation boundary: the code forms the "
+               "boundary as fl(1e-2*fl(x_1-x_0)) and compares fl(|x-x_0|) with it, which decides correctly only beyond ~3e-16 relative",
+               "interior rounding-level overshoot and backward steps are inherent to evaluating the cubic a*t^3+b*t^2+c*t+d in doubles "
+               "and are accepted up to 32 eps*max(|y_j|,|y_j+1|): the audit measured <= 21.6 eps*Yj (overshoot, 3.99% of 2.2e7 interior "
+               "samples) and <= 21.8 eps*Yj (backward step, 0.55%) on the unchanged code; at the knots themselves (every knot, the last "
+               "included) and on plateaus the tabulated value is demanded bit-for-bit; the 2-D four-term sum is accepted up to "
+               "8 eps*max|corner| outside the hull of its cell (measured <= 4.2), exact at the nodes"]
 TRUSTED = ["translators/constants.py (regenerates lean/LpModel/C01/Constants.lean from the anchored numeric literals of the current source before every lake build; a missing anchor falls back to the committed default and is recorded in notes.pre_build.anchor_missing)"]
 
 # ---------------------------------------------------------------------------------------------------
@@ -49,12 +55,18 @@ def pre_build(c):
     return _constants_translator(c["verif"]).regenerate("C01", c["repo"], c["lean"])
 
 
-K_VAL = 256        # value correspondence, in eps*max(|y_j|,|y_j+1|)*|pref|
-K_DER = 2048       # derivative correspondence, in eps*max|y|/h^k*|pref|
-K_OVER = 256       # rounding-level overshoot / monotonicity slack of the oracle
-K_TAY = 1024       # Taylor consistency of reported derivatives (sum-of-terms scale)
-K_2D = 96
-K_ALLOW = 4         # 2-D: factor on the a-priori rounding bound allowance_2d (weights times corner magnitudes)
+# Slacks after the hidden-slack audit (findings/audit-hidden-slack-C01-C10.md): clauses the property states exactly are
+# judged bit-for-bit (knots incl. the last, plateaus, D^k k>=4, D0 == Interpolate, D3 constant, 2-D nodes); what remains is
+# the rounding of evaluating a cubic / a four-term sum in doubles, at about 1.5x the worst value probed on 2e7 samples.
+K_VAL = 32         # value correspondence, in eps*max(|y_j|,|y_j+1|)*|pref|           (worst probed 17.8)
+K_DER = 2048       # derivative correspondence with the model, in eps*max|y|/h^k*|pref| (class B, not a [prop] clause)
+K_OVER = 32        # interior rounding-level overshoot / backward step, in eps*Yj       (worst probed 21.6 / 21.8: inherent)
+K_LIN = (16, 32, 128, 128)   # exact straight-line / parabola data: value, D1, D2, D3      (worst probed 6.8 / 11.5 / ~30)
+K_TAY = 128        # Taylor and C1 consistency of reported derivatives (sum-of-terms scale) (worst probed 16 / 43)
+K_2D = 16          # 2-D bilinear reproduction, edge continuity, model correspondence in eps*Fm (worst probed 1.8 / 6)
+K_HULL = 8         # 2-D hull: eps*Fm                                                     (worst probed 4.2)
+K_ALLOW = 4        # 2-D: factor on the a-priori rounding bound allowance_2d (weights times corner magnitudes); the
+                   # effective 2-D slack is min(K_ALLOW*allowance, K*eps*Fm)
 
 INF = math.inf
 
@@ -181,7 +193,7 @@ def zone_point(rng, xs, side, frac):
             return None
         d = Fraction(x) - Fraction(xs[-1])
     tol = h / 100
-    m = Fraction(1, 2 ** 30)
+    m = Fraction(1, 2 ** 50)
     if frac < 1 and d < tol * (1 - m):
         return x
     if frac > 1 and d > tol * (1 + m):
@@ -397,12 +409,12 @@ def generate(tier, seed, ctx):
         Q = queries_1d(rng, xs1, nseg=6, ndense=10)
         R.append(req_1d("c01.eval", "unit", xs0, ys0, xdim, fdim, pref, mul, Q))
     # ---- outcome class A: beyond the 1% zone, malformed tables -----------------------------------------
-    for k in range(150 if thorough else 16):
+    for k in range(300 if thorough else 32):
         N = rng.randint(3, 12)
         xs = gen_xs(rng, N, rng.choice(["jitter", "wild", "offset"]))
         ys = gen_ys(rng, xs, "smooth")
         side = rng.choice([-1, 1])
-        frac = rng.choice([0.5, 1 - 1e-6, 1 + 1e-6, 1.5, 50.0, 1e6])
+        frac = rng.choice([0.5, 1 - 1e-6, 1 + 1e-6, 1 - 1e-12, 1 + 1e-12, 1 - 2.0 ** -46, 1 + 2.0 ** -46, 1.5, 50.0, 1e6])
         x = zone_point(rng, xs, side, frac)
         if x is None:
             continue
@@ -667,22 +679,21 @@ def oracle_1d(P, vals, ctx):
             if v is not None:
                 fv = Fraction(v)
                 # knots
+                # "returns each tabulated value at its abscissa": bit-for-bit at EVERY knot, the last one included
                 if x == xs[j]:
-                    e = abs(fv - py0)
-                    if e > 2 * EPS * abs(py0):
-                        out.append(fail("prop", "knot not reproduced: Interpolate(x_j) != prefactor*y_j", "j=%d x=%r value=%r expected=%r" % (j, x, v, float(py0))))
+                    if v != pref * ys[j]:
+                        out.append(fail("prop", "knot not reproduced: Interpolate(x_j) != prefactor*y_j", "j=%d x=%r value=%r expected=%r" % (j, x, v, pref * ys[j])))
                 elif x == xs[j + 1]:
-                    e = abs(fv - py1)
-                    worst(ctx, "worst_last_knot", ratio(e, Yj * ap))
-                    if e > K_VAL * EPS * Yj * ap:
-                        out.append(fail("prop", "last knot not reproduced within rounding", "x=%r value=%r expected=%r" % (x, v, float(py1))))
+                    ctx["nontrivial"].add(("last-knot-exact", v == 0.0))
+                    if v != pref * ys[j + 1]:
+                        out.append(fail("prop", "last knot not reproduced: Interpolate(x_{N-1}) != prefactor*y_{N-1}", "x=%r value=%r expected=%r" % (x, v, pref * ys[j + 1])))
                 if inside:
                     over = max(lo - fv, fv - hi, 0)
                     worst(ctx, "worst_overshoot", ratio(over, Yj * ap))
                     if over > K_OVER * EPS * Yj * ap:
                         out.append(fail("prop", "overshoot: value outside [min,max] of the two neighbouring ordinates",
                                         "j=%d x=%r value=%r bounds=[%r,%r]" % (j, x, v, float(lo), float(hi))))
-                    if dirn == 0 and fv != py0 and abs(fv - py0) > 2 * EPS * abs(py0):
+                    if dirn == 0 and v != pref * ys[j]:
                         out.append(fail("prop", "plateau not reproduced exactly", "j=%d x=%r value=%r" % (j, x, v)))
                     if prev is not None:
                         back = dirn * (Fraction(prev[1]) - fv)
@@ -695,27 +706,36 @@ def oracle_1d(P, vals, ctx):
                 if fam == "lin":
                     m, q = Fraction(fl(tagf[1])), Fraction(fl(tagf[2]))
                     e = abs(fv - Fraction(pref) * (m * fx + q))
-                    if e > K_VAL * EPS * Yj * ap:
+                    worst(ctx, "worst_lin_value", ratio(e, Yj * ap))
+                    if e > K_LIN[0] * EPS * Yj * ap:
                         out.append(fail("prop", "straight-line data not reproduced", "x=%r value=%r" % (x, v)))
                 if fam == "par" and inactive[j] and inactive[j + 1]:
                     al, be, ga = (Fraction(fl(t)) for t in tagf[1:4])
                     e = abs(fv - Fraction(pref) * (al * fx * fx + be * fx + ga))
                     ctx["nontrivial"].add(("par-inactive", min(j, 3)))
-                    if e > K_VAL * EPS * Yj * ap:
+                    worst(ctx, "worst_par_value", ratio(e, Yj * ap))
+                    if e > K_LIN[0] * EPS * Yj * ap:
                         out.append(fail("prop", "parabola data not reproduced where the limiter is inactive", "j=%d x=%r value=%r" % (j, x, v)))
             if fam == "lin" and 1 in d:
                 m = Fraction(fl(tagf[1]))
-                if abs(Fraction(d[1]) - Fraction(pref) * m) > K_DER * EPS * Yj / hj * ap:
+                worst(ctx, "worst_lin_d1", ratio(abs(Fraction(d[1]) - Fraction(pref) * m), Yj / hj * ap))
+                if abs(Fraction(d[1]) - Fraction(pref) * m) > K_LIN[1] * EPS * Yj / hj * ap:
                     out.append(fail("prop", "straight-line data: first derivative is not the slope", "x=%r D1=%r" % (x, d[1])))
             if fam == "lin":
                 for o_ in (2, 3):
-                    if o_ in d and abs(Fraction(d[o_])) > K_DER * EPS * Yj / hj ** o_ * ap:
+                    if o_ in d:
+                        worst(ctx, "worst_lin_d%d" % o_, ratio(abs(Fraction(d[o_])), Yj / hj ** o_ * ap))
+                    if o_ in d and abs(Fraction(d[o_])) > K_LIN[o_] * EPS * Yj / hj ** o_ * ap:
                         out.append(fail("prop", "straight-line data: derivative of order %d is not 0" % o_, "x=%r D%d=%r" % (x, o_, d[o_])))
             if fam == "par" and inactive[j] and inactive[j + 1]:
                 al, be = Fraction(fl(tagf[1])), Fraction(fl(tagf[2]))
-                if 1 in d and abs(Fraction(d[1]) - Fraction(pref) * (2 * al * fx + be)) > K_DER * EPS * Yj / hj * ap:
+                if 1 in d:
+                    worst(ctx, "worst_par_d1", ratio(abs(Fraction(d[1]) - Fraction(pref) * (2 * al * fx + be)), Yj / hj * ap))
+                if 1 in d and abs(Fraction(d[1]) - Fraction(pref) * (2 * al * fx + be)) > K_LIN[1] * EPS * Yj / hj * ap:
                     out.append(fail("prop", "parabola data (limiter inactive): first derivative is not 2*alpha*x+beta", "j=%d x=%r D1=%r" % (j, x, d[1])))
-                if 2 in d and abs(Fraction(d[2]) - Fraction(pref) * 2 * al) > K_DER * EPS * Yj / hj ** 2 * ap:
+                if 2 in d:
+                    worst(ctx, "worst_par_d2", ratio(abs(Fraction(d[2]) - Fraction(pref) * 2 * al), Yj / hj ** 2 * ap))
+                if 2 in d and abs(Fraction(d[2]) - Fraction(pref) * 2 * al) > K_LIN[2] * EPS * Yj / hj ** 2 * ap:
                     out.append(fail("prop", "parabola data (limiter inactive): second derivative is not 2*alpha", "j=%d x=%r D2=%r" % (j, x, d[2])))
             # Taylor consistency between consecutive fully observed points of the segment
             if v is not None and all(k in d for k in (1, 2, 3)):
@@ -832,7 +852,7 @@ def oracle_2d(P, vals, ctx):
             allow = allowance_2d(xs, ys, c, i, j, x, y) * ap
             worst(ctx, "worst_2d_hull", ratio(over, Fm * ap))
             worst(ctx, "worst_2d_hull_vs_allowance", float(over / allow) if allow else (0.0 if over == 0 else INF))
-            if over > K_ALLOW * allow:
+            if over > min(K_ALLOW * allow, K_HULL * EPS * Fm * ap):
                 out.append(fail("prop", "2-D: value outside the minimum/maximum of the four surrounding grid values",
                                 "cell (%d,%d) point (%r,%r) value=%r corners*prefactor in [%r,%r]" % (i, j, x, y, v, float(lo), float(hi))))
             # continuity across the left / lower edge of the cell
@@ -930,7 +950,7 @@ def compare(rq, impl, model, ctx):
             allow = allowance_2d(xs, ys, cc, i, j, x, y) * ap
             worst(ctx, "worst_2d_err_vs_allowance", float(e / allow) if allow else (0.0 if e == 0 else INF))
             ctx["nontrivial"].add((op, fam, sizeclass(len(xs)), qclass(xs, x), qclass(ys, y)))
-            if e > K_ALLOW * allow:
+            if e > min(K_ALLOW * allow, K_2D * EPS * Fm * ap):
                 corr.append(fail("corr", "2-D Interpolate differs from the model", "point (%r,%r): %r vs %s" % (x, y, v, float(m))))
     else:
         xs = scaled(P["xs0"], P["xdim"]); ys = scaled(P["ys0"], P["fdim"])
